@@ -1,6 +1,6 @@
 #!/bin/bash
 # usage: tools/keep_seed.sh <cNN> <n> "<needs>" "<caught by>" [<id number, default n>]  — stores a confirmed seeded change under /verif/seeded/
-c=$1; n=$2; needs=$3; caught=$4; out=/tmp/seed-out-$c
+c=$1; n=$2; needs=$3; caught=$4; out=${SEED_OUT:-/tmp/seed-out-$c}
 id=$(echo $c | tr a-z A-Z)-${5:-$n}
 d=/verif/seeded/$id; mkdir -p $d
 cp $out/change$n.diff $d/patch.diff
